@@ -248,8 +248,28 @@ impl<'a> G<'a> {
     }
 
     fn string(&mut self, d: u32) -> String {
-        let top = if d == 0 { 2 } else { 5 };
+        let top = if d == 0 { 2 } else { 8 };
         match self.p.below(top) {
+            5 => {
+                // user functions and methods named like runtime helpers (`*_to_string`,
+                // `to_string`): they have effects, whatever their names suggest
+                let t = self.t();
+                let a = self.int(d - 1);
+                format!("pt_to_string(\"{t}\", {a})")
+            }
+            6 => {
+                let a = self.int(d - 1);
+                let b = self.int(d - 1);
+                if self.p.chance(1, 2) {
+                    format!("(Pt {{ x: {a}, y: {b} }}).to_string()")
+                } else {
+                    format!("Pt::to_string(Pt {{ x: {a}, y: {b} }})")
+                }
+            }
+            7 => {
+                let a = self.int(d - 1);
+                format!("Lbl::to_string(Qt {{ z: {a} }})")
+            }
             0 => format!("\"{}\"", ["a", "b", "xy", ""][self.p.usize(4)]),
             1 => {
                 let t = self.t();
@@ -342,7 +362,22 @@ impl<'a> G<'a> {
         let clos_mark = self.closures.len();
         for _ in 0..n {
             let d = self.cfg.depth;
-            match self.p.below(19) {
+            match self.p.below(21) {
+                19 => {
+                    let st = self.string(d);
+                    match self.p.below(3) {
+                        0 => s.push_str(&format!("{pad}let _ = {st};\n")),
+                        1 => {
+                            let u = self.fresh("us");
+                            s.push_str(&format!("{pad}let {u} = {st};\n"));
+                        }
+                        _ => s.push_str(&format!("{pad}{st};\n")),
+                    }
+                }
+                20 => {
+                    let st = self.string(d);
+                    s.push_str(&format!("{pad}let _ = string_len({st});\n"));
+                }
                 12 => {
                     // destructuring of an effectful tuple literal
                     let a = self.int(d);
@@ -525,7 +560,9 @@ pub fn generate(p: &mut Prng, cfg: &ConcCfg) -> String {
     s.push_str("fn ps(tag: string, v: string) -> string {\n    string_println(tag);\n    v\n}\n\n");
     s.push_str("fn idg[T](tag: string, x: T) -> T {\n    string_println(tag);\n    x\n}\n\n");
     s.push_str("fn rec(n: int32, r: Ref[int32]) -> int32 {\n    if n < 1 {\n        ref_get(r)\n    } else {\n        ref_set(r, ref_get(r) + n);\n        rec(n - 1, r)\n    }\n}\n\n");
-    s.push_str("impl Pt {\n    fn addx(self: Pt, v: int32) -> int32 {\n        string_println(\"m\");\n        self.x + v\n    }\n}\n\n");
+    s.push_str("impl Pt {\n    fn addx(self: Pt, v: int32) -> int32 {\n        string_println(\"m\");\n        self.x + v\n    }\n    fn to_string(self: Pt) -> string {\n        string_println(\"ts\");\n        int32_to_string(self.x - self.y)\n    }\n}\n\n");
+    s.push_str("fn pt_to_string(tag: string, v: int32) -> string {\n    string_println(tag);\n    int32_to_string(v)\n}\n\n");
+    s.push_str("struct Qt {\n    z: int32,\n}\n\ntrait Lbl {\n    fn to_string(Self) -> string;\n}\n\nimpl Lbl for Qt {\n    fn to_string(self: Qt) -> string {\n        string_println(\"lb\");\n        int32_to_string(self.z)\n    }\n}\n\n");
     s.push_str("trait Cnt {\n    fn cnt(Self, int32) -> int32;\n}\n\nimpl Cnt for Pt {\n    fn cnt(self: Pt, v: int32) -> int32 {\n        string_println(\"c\");\n        self.y + v\n    }\n}\n\n");
     s.push_str("trait Eff {\n    fn emit(Self, int32) -> unit;\n}\n\nimpl Eff for Pt {\n    fn emit(self: Pt, v: int32) -> unit {\n        string_println(\"e\" + int32_to_string(self.x + v))\n    }\n}\n\n");
     s.push_str("fn main() -> unit {\n    let pv = Pt { x: 1, y: 2 };\n    let dv: dyn Eff = pv;\n    let zz = 0;\n    let nn = 7;\n");
